@@ -127,7 +127,10 @@ func sliceType(value Type) Type {
 }
 
 func mapType(key, value Type) Type {
-	return value<<(typeShift*2) | key<<typeShift | TypeMap
+	// the key has one byte of the encoding (pair reads it back masked): a key type that
+	// carries more than its kind (*T is TypeStruct plus the index of T) keeps the kind,
+	// so that its upper bits do not run into the value type
+	return value<<(typeShift*2) | key.base()<<typeShift | TypeMap
 }
 
 func structType(value Type) Type {
@@ -980,19 +983,32 @@ func (m *stringMap) SafeStr() string {
 	return "map[" + strings.Join(p, " ") + "]"
 }
 
+// mapKey is the key of a map whose keys are not strings: a number (or bool) is keyed by
+// its value, a reference (a struct pointer, a host object) by its identity.
+type mapKey struct {
+	num float64
+	ref Object
+}
+
+func keyOf(k Value) mapKey { return mapKey{num: k.num, ref: k.value} }
+
 type numericMap struct {
 	Object
 	keyType   Type
 	valueType Type
-	data      map[float64]Value
-	keys      []float64
+	data      map[mapKey]Value
+	keys      []mapKey
+}
+
+func (m *numericMap) keyValue(k mapKey) Value {
+	return Value{t: m.keyType, num: k.num, value: k.ref}
 }
 
 func newNumericMap(keyType, valueType Type, in []Value) Value {
-	m := &numericMap{keyType: keyType, valueType: valueType, data: map[float64]Value{}}
-	m.keys = make([]float64, 0, len(in)/2)
+	m := &numericMap{keyType: keyType, valueType: valueType, data: map[mapKey]Value{}}
+	m.keys = make([]mapKey, 0, len(in)/2)
 	for i := 0; i < len(in); i += 2 {
-		k, v := in[i].num, in[i+1]
+		k, v := keyOf(in[i]), in[i+1]
 		if _, ok := m.data[k]; !ok {
 			m.keys = append(m.keys, k)
 		}
@@ -1004,7 +1020,7 @@ func newNumericMap(keyType, valueType Type, in []Value) Value {
 func (m *numericMap) Len() int { return len(m.data) }
 
 func (m *numericMap) Get(k Value) (Value, bool) {
-	v, ok := m.data[k.num]
+	v, ok := m.data[keyOf(k)]
 	if !ok {
 		return newZero(m.valueType), false
 	}
@@ -1012,11 +1028,11 @@ func (m *numericMap) Get(k Value) (Value, bool) {
 }
 
 func (m *numericMap) Set(k, v Value) {
-	key := k.num
+	key := keyOf(k)
 	if _, ok := m.data[key]; !ok {
 		if len(m.keys) != len(m.data) {
 			// drop keys deleted since the last compaction, so a re-inserted key is listed once
-			keys := make([]float64, 0, len(m.data)+1)
+			keys := make([]mapKey, 0, len(m.data)+1)
 			for _, k := range m.keys {
 				if _, ok := m.data[k]; ok {
 					keys = append(keys, k)
@@ -1030,7 +1046,7 @@ func (m *numericMap) Set(k, v Value) {
 }
 
 func (m *numericMap) Delete(k Value) {
-	delete(m.data, k.num)
+	delete(m.data, keyOf(k))
 	if len(m.data) >= (len(m.keys) >> 1) {
 		return
 	}
@@ -1046,7 +1062,7 @@ func (m *numericMap) Range() func() (Value, Value, bool) {
 			v, ok := m.data[k]
 			n++
 			if ok {
-				return Value{t: m.keyType, num: k}, v, true
+				return m.keyValue(k), v, true
 			}
 		}
 		return Nil(), Nil(), false
@@ -1056,7 +1072,7 @@ func (m *numericMap) Range() func() (Value, Value, bool) {
 func (m *numericMap) String() string {
 	var p []string
 	for k, v := range m.data {
-		p = append(p, Value{t: m.keyType, num: k}.String()+":"+v.safeStr())
+		p = append(p, m.keyValue(k).safeStr()+":"+v.safeStr())
 	}
 	return "map[" + strings.Join(p, " ") + "]"
 }
@@ -1067,7 +1083,7 @@ func (m *numericMap) SafeStr() string {
 		if !v.t.isSafeStr() {
 			return "map[...]"
 		}
-		p = append(p, Value{t: m.keyType, num: k}.String()+":"+v.safeStr())
+		p = append(p, m.keyValue(k).safeStr()+":"+v.safeStr())
 	}
 	return "map[" + strings.Join(p, " ") + "]"
 }
